@@ -285,6 +285,9 @@ type gen struct {
 	init []bool // the local has been written (parameters: true from the start)
 	st   []vt   // the type stack, top last
 	live bool   // before the first `return`
+	// narrow: the narrow sign extensions may be generated (a third of the functions; the others stay in the base
+	// fragment and get the well-formedness / pass checks)
+	narrow bool
 }
 
 func (g *gen) emit(name string, imm uint64) { g.f.body = append(g.f.body, ins{name, imm}) }
@@ -496,7 +499,11 @@ func (g *gen) step() {
 	case k < 99: // conversions (8 of them, each with the weight 2 of 110)
 		var name string
 		var from, to vt
-		switch r.Intn(8) {
+		nconv := 4
+		if g.narrow {
+			nconv = 8
+		}
+		switch r.Intn(nconv) {
 		case 0:
 			name, from, to = "i32.wrap_i64", tI64, tI32
 		case 1:
@@ -618,7 +625,7 @@ func (g *gen) randTys(n int, mode int) []vt {
 // generated instructions (operands that are missing are pushed first) plus the final fix-up; with probability 1/4
 // an explicit `return` at a random point, followed by nothing, or by dead code and the fix-up.
 func genFn(r *rand.Rand) *fnDef {
-	g := &gen{r: r, f: &fnDef{}, live: true}
+	g := &gen{r: r, f: &fnDef{}, live: true, narrow: r.Intn(3) == 0}
 	f := g.f
 	f.params = g.randTys(r.Intn(5), 2)
 	f.results = g.randTys(r.Intn(4), 2)
